@@ -175,37 +175,66 @@ static InvOut judge_inverse(Ctx& c, const std::string& cls, EllObj& E, bool seri
   double kt = ktrunc(E, series);
   double Ls = lscale(E, lat1, lat2), sref = (double)r.s12;
   double tol_len = kt * K_LEN * (EPS * sref + F_FLOOR * EPS * Ls);
-  // ---- distance
-  double es = (double)ref::fabs((Q)o.s12 - r.s12);
-  c.obs("inverse s12 error / tolerance [" + otag(md) + "]", es / tol_len, J(w).f("err_m", es).f("tol_m", tol_len));
-  c.obs("inverse s12 error [nm, scaled to a=WGS84] " + md + " " + E.bucket, es * 1e9 * WGS84_A / E.a);
-  if (!(es <= tol_len) || !(o.s12 >= 0)) V(c, "oracle:C09/inverse/s12/" + md, cls, J(w).f("err_m", es).f("tol_m", tol_len));
-  // ---- tie rule and azimuth
+  // judge the REQUESTED outputs of one inverse call against REF (sfx = "" for the all-outputs call, "/masked")
   bool west = false;
-  if (r.tie && !r.degenerate && r.lon12 != 0) {
-    c.event("tie (|lon12| == 180 exactly) cases checked");
-    // east-going: azimuth in [0, 180]
-    if (std::isnan(o.azi12) || std::signbit(o.azi12)) {
-      west = true;
-      c.viol("oracle:C09/inverse/tie-rule-east-going", cls, J(w));
+  auto judge3 = [&](double s12v, double aziv, double S12v, bool qs, bool qa, bool qS, const std::string& sfx, const J& ww) {
+    const std::string mdx = md + sfx;
+    bool wst = false;
+    // ---- distance
+    if (qs) {
+      double es = (double)ref::fabs((Q)s12v - r.s12);
+      c.obs("inverse s12 error / tolerance [" + otag(mdx) + "]", es / tol_len, J(ww).f("err_m", es).f("tol_m", tol_len));
+      if (sfx.empty()) c.obs("inverse s12 error [nm, scaled to a=WGS84] " + md + " " + E.bucket, es * 1e9 * WGS84_A / E.a);
+      if (!(es <= tol_len) || !(s12v >= 0)) V(c, "oracle:C09/inverse/s12/" + mdx, cls, J(ww).f("err_m", es).f("tol_m", tol_len));
     }
-  }
-  if (!r.degenerate) {
-    if (!(std::fabs(o.azi12) <= 180)) V(c, "oracle:C09/inverse/azi12-range/" + md, cls, J(w));
-    if (sref > 0) {
-      Q da = ref::remainder((Q)(west ? -o.azi12 : o.azi12) - r.azi12, (Q)360) * DEGQ;
-      double ea = (double)ref::fabs(da) * sref;
-      c.obs("inverse azimuth error x s12 / tolerance [" + otag(md) + "]", ea / tol_len, J(w).f("err_m", ea).f("tol_m", tol_len));
-      if (!(ea <= tol_len)) V(c, "oracle:C09/inverse/azi12/" + md, cls, J(w).f("err_m", ea).f("tol_m", tol_len));
+    // ---- tie rule and azimuth
+    if (qa && r.tie && !r.degenerate) {
+      if (sfx.empty()) c.event("tie (|lon12| == 180 exactly) cases checked");
+      // east-going: azimuth in [0, 180]
+      if (std::isnan(aziv) || std::signbit(aziv)) {
+        wst = true;
+        if (sfx.empty()) c.viol("oracle:C09/inverse/tie-rule-east-going", cls, J(ww));
+      }
     }
-    // ---- area
-    double lam = (double)ref::fabs(r.lon12) * DEG;
-    double tolS = kt * K_AREA * EPS * E.A2 * lam + E.A2 * 1e-290;
-    double eS = (double)ref::fabs((Q)(west ? -o.S12 : o.S12) - r.S12);
-    if (!ref::isnan(r.S12)) {
-      if (tolS > 0) c.obs("inverse S12 error / tolerance [" + otag(md) + "]", eS / tolS, J(w).f("err_m2", eS).f("tol_m2", tolS));
-      if (!(eS <= tolS)) V(c, "oracle:C09/inverse/S12/" + md, cls, J(w).f("err_m2", eS).f("tol_m2", tolS));
+    if (!qa && qS && r.tie && !r.degenerate && r.S12 != 0 && !ref::isnan(r.S12) && std::signbit(S12v) != (r.S12 < 0)) wst = true;   // same tie, seen through the area only
+    if (!r.degenerate) {
+      if (qa) {
+        if (!(std::fabs(aziv) <= 180)) V(c, "oracle:C09/inverse/azi12-range/" + mdx, cls, J(ww));
+        if (sref > 0) {
+          Q da = ref::remainder((Q)(wst ? -aziv : aziv) - r.azi12, (Q)360) * DEGQ;
+          double ea = (double)ref::fabs(da) * sref;
+          c.obs("inverse azimuth error x s12 / tolerance [" + otag(mdx) + "]", ea / tol_len, J(ww).f("err_m", ea).f("tol_m", tol_len));
+          if (!(ea <= tol_len)) V(c, "oracle:C09/inverse/azi12/" + mdx, cls, J(ww).f("err_m", ea).f("tol_m", tol_len));
+        }
+      }
+      // ---- area
+      if (qS && !ref::isnan(r.S12)) {
+        double lam = (double)ref::fabs(r.lon12) * DEG;
+        double tolS = kt * K_AREA * EPS * E.A2 * lam + E.A2 * 1e-290;
+        double eS = (double)ref::fabs((Q)(wst ? -S12v : S12v) - r.S12);
+        if (tolS > 0) c.obs("inverse S12 error / tolerance [" + otag(mdx) + "]", eS / tolS, J(ww).f("err_m2", eS).f("tol_m2", tolS));
+        if (!(eS <= tolS)) V(c, "oracle:C09/inverse/S12/" + mdx, cls, J(ww).f("err_m2", eS).f("tol_m2", tolS));
+      }
     }
+    return wst; };
+  west = judge3(o.s12, o.azi12, o.S12, true, true, true, "", w);
+  // ---- GenInverse with a random NON-EMPTY subset of the outputs requested
+  {
+    unsigned bits = 1 + (unsigned)c.rng.below(7);
+    bool qs = bits & 1, qa = bits & 2, qS = bits & 4;
+    unsigned m2 = (qs ? (unsigned)Rhumb::DISTANCE : 0u) | (qa ? (unsigned)Rhumb::AZIMUTH : 0u) | (qS ? (unsigned)Rhumb::AREA : 0u);
+    double s2 = vh::sentinel(1), a2 = vh::sentinel(2), S2 = vh::sentinel(3);
+    rh.GenInverse(lat1, lon1, lat2, lon2, m2, s2, a2, S2);
+    bool nf0 = g_route.nonfinite;
+    g_route.nonfinite = !r.degenerate && !((!qs || std::isfinite(s2)) && (!qa || std::isfinite(a2)) && (!qS || std::isfinite(S2) || ref::isnan(r.S12)));
+    J wm = J().f("a", E.a).f("f", E.f).str("mode", md).str("api", "GenInverse (subset of outputs)").u("outmask", m2).f("lat1", lat1).f("lon1", lon1).f("lat2", lat2).f("lon2", lon2)
+      .f("s12", s2).f("azi12", a2).f("S12", S2).str("ref_s12", jq(r.s12)).str("ref_azi12", jq(r.azi12)).str("ref_S12", jq(r.S12)).str("ref_lon12", jq(r.lon12));
+    if (c.only) std::fprintf(stderr, "INVERSE-MASKED %s\n", wm.done().c_str());
+    c.event("inverse calls with a random subset of outputs judged");
+    judge3(s2, a2, S2, qs, qa, qS, "/masked", wm);
+    if (!((qs || vh::is_sentinel(s2, 1)) && (qa || vh::is_sentinel(a2, 2)) && (qS || vh::is_sentinel(S2, 3))))
+      c.event("inverse: an output that was not requested was written (C12 judges this)");
+    g_route.nonfinite = nf0;
   }
   o.ok = true;
   // ---- direct of inverse (library only; tolerance from the oracle's conditioning data)
@@ -376,69 +405,118 @@ static DirTol direct_tols(const EllObj& E, bool series, double lat1, double lon1
 }
 
 struct DirOut { double lat2, lon2, S12; bool judged_pos; };
+struct DirReq { bool lat, lon, area, unroll; };
 
-// line == nullptr: Rhumb::GenDirect; otherwise RhumbLine::GenPosition on that line
+// judge the REQUESTED outputs of one direct call against REF (sfx = "" for the all-outputs call, "/masked", "/overload")
+static void judge_direct_outputs(Ctx& c, const std::string& cls, EllObj& E, bool series, double lat1, double lon1, double azi12, double s12,
+                                 const ref::RhumbDir<Q>& r, const DirTol& t, bool borderline, DirOut& o, DirReq q, const std::string& sfx, const J& w) {
+  const ref::RhumbRef<Q>& R = *E.R;
+  const std::string md = (series ? "series" : "exact") + sfx;
+  o.judged_pos = false;
+  g_route.E = &E; g_route.series = series; g_route.lat1 = lat1; g_route.lat2 = q.lat && std::isfinite(o.lat2) ? o.lat2 : (double)r.lat2; g_route.moved = true;
+  g_route.nonfinite = !r.crossed && !r.from_pole && !r.at_pole && !((!q.lat || std::isfinite(o.lat2)) && (!q.lon || std::isfinite(o.lon2)) && (!q.area || std::isfinite(o.S12)));
+  // ---- latitude (documented rule: the latitude continues over the pole)
+  double em = 0;
+  if (q.lat) {
+    if (!(std::fabs(o.lat2) <= 90)) { V(c, "oracle:C09/direct/lat2-range/" + md, cls, w); return; }
+    em = (double)ref::fabs(R.merid(o.lat2) - R.merid(r.lat2));
+    c.obs("direct latitude error (meridian distance) / tolerance [" + otag(md) + "]", em / t.tol_m, J(w).f("err_m", em).f("tol_m", t.tol_m));
+    if (!(em <= t.tol_m)) V(c, std::string("oracle:C09/direct/") + (r.crossed ? "pole-rule/lat2/" : "lat2/") + md, cls, J(w).f("err_m", em).f("tol_m", t.tol_m));
+  }
+  // ---- pole rule
+  if (borderline) { if (sfx.empty()) c.event("direct: course ends within round-off of a pole (either outcome accepted)"); return; }
+  if (r.crossed) {
+    if (sfx.empty()) c.event("direct: pole-crossing courses checked against the documented rule");
+    if (q.lon && !std::isnan(o.lon2)) V(c, "oracle:C09/direct/pole-rule/lon2-not-nan/" + md, cls, w);
+    if (q.area && !std::isnan(o.S12)) V(c, "oracle:C09/direct/pole-rule/S12-not-nan/" + md, cls, w);
+    return;
+  }
+  if (r.from_pole) {
+    if (sfx.empty()) {
+      c.event("direct: start at a pole");
+      Q salp, calp; ref::sincosd<Q>((Q)azi12, salp, calp);
+      if (salp == 0 && s12 != 0 && !r.at_pole) {
+        // a course along a meridian leaving the pole: longitude is determinate (the meridian lon1) and the area is 0
+        c.event("direct: start at a pole, exactly meridional");
+        if (!(std::isfinite(o.lon2) && std::isfinite(o.S12)))
+          c.viol("oracle:C09/direct/from-pole/meridional-course-longitude-not-finite", cls, w);
+      }
+    }
+    return;
+  }
+  if (r.at_pole) return;
+  // ---- position
+  if (!((!q.lon || std::isfinite(o.lon2)) && (!q.area || std::isfinite(o.S12)))) { V(c, "oracle:C09/direct/non-finite-output/" + md, cls, w); return; }
+  if (q.lon) {
+    Q dl = q.unroll ? ((Q)o.lon2 - (Q)lon1) - r.lon12 : ref::remainder((Q)o.lon2 - ((Q)lon1 + r.lon12), (Q)360);
+    double ee = t.R2 * (double)ref::fabs(dl) * DEG, ep = std::hypot(em, ee);
+    c.obs("direct position error / tolerance [" + otag(md) + "]", ep / t.tol_pos, J(w).f("err_m", ep).f("tol_m", t.tol_pos).f("cond", t.cond));
+    if (sfx.empty()) c.obs("direct position error / cond [nm, scaled to a=WGS84] " + md + " " + E.bucket, ep / t.cond * 1e9 * WGS84_A / E.a);
+    if (!(ep <= t.tol_pos)) V(c, "oracle:C09/direct/position/" + md, cls, J(w).f("err_m", ep).f("tol_m", t.tol_pos).f("cond", t.cond));
+    if (!q.unroll && !(std::fabs(o.lon2) <= 180)) V(c, "oracle:C09/direct/lon2-range/" + md, cls, w);
+    if (q.unroll && t.R2 > 0 && (double)ref::fabs(dl) > 180 && t.tol_pos / t.R2 < 1) V(c, "oracle:C09/direct/unroll-circuit-count/" + md, cls, w);
+    o.judged_pos = q.lat;
+  }
+  // ---- area
+  if (q.area && t.area_ok) {
+    double eS = (double)ref::fabs((Q)o.S12 - r.S12);
+    if (t.tol_S > 0) c.obs("direct S12 error / tolerance [" + otag(md) + "]", eS / t.tol_S, J(w).f("err_m2", eS).f("tol_m2", t.tol_S));
+    if (!(eS <= t.tol_S)) V(c, "oracle:C09/direct/S12/" + md, cls, J(w).f("err_m2", eS).f("tol_m2", t.tol_S));
+  }
+}
+
+// line == nullptr: Rhumb::GenDirect / Direct; otherwise RhumbLine::GenPosition / Position on that line
 static DirOut judge_direct(Ctx& c, const std::string& cls, EllObj& E, bool series, double lat1, double lon1, double azi12, double s12, bool unroll,
                            const ref::RhumbDir<Q>& r, const RhumbLine* line, const char* api) {
   const Rhumb& rh = series ? *E.ser : *E.exa;
   const ref::RhumbRef<Q>& R = *E.R;
   const std::string md = series ? "series" : "exact", ap = api;
+  auto call = [&](unsigned mask, DirOut& o) {
+    o.lat2 = vh::sentinel(1); o.lon2 = vh::sentinel(2); o.S12 = vh::sentinel(3); o.judged_pos = false;
+    if (line) line->GenPosition(s12, mask, o.lat2, o.lon2, o.S12); else rh.GenDirect(lat1, lon1, azi12, s12, mask, o.lat2, o.lon2, o.S12); };
+  auto witness = [&](const DirOut& o, unsigned mask, const std::string& how) {
+    return J().f("a", E.a).f("f", E.f).str("mode", md).str("api", ap + how).f("lat1", lat1).f("lon1", lon1).f("azi12", azi12).f("s12", s12).u("outmask", mask)
+      .f("lat2", o.lat2).f("lon2", o.lon2).f("S12", o.S12).str("ref_lat2", jq(r.lat2)).str("ref_lon12", jq(r.lon12)).str("ref_S12", jq(r.S12)).str("ref_mu2", jq(r.mu2)).b("ref_crossed", r.crossed); };
   unsigned mask = Rhumb::LATITUDE | Rhumb::LONGITUDE | Rhumb::AREA | (unroll ? (unsigned)Rhumb::LONG_UNROLL : 0u);
-  DirOut o; o.lat2 = vh::sentinel(1); o.lon2 = vh::sentinel(2); o.S12 = vh::sentinel(3); o.judged_pos = false;
-  if (line) line->GenPosition(s12, mask, o.lat2, o.lon2, o.S12); else rh.GenDirect(lat1, lon1, azi12, s12, mask, o.lat2, o.lon2, o.S12);
-  J w = J().f("a", E.a).f("f", E.f).str("mode", md).str("api", ap).f("lat1", lat1).f("lon1", lon1).f("azi12", azi12).f("s12", s12).b("unroll", unroll)
-    .f("lat2", o.lat2).f("lon2", o.lon2).f("S12", o.S12).str("ref_lat2", jq(r.lat2)).str("ref_lon12", jq(r.lon12)).str("ref_S12", jq(r.S12)).str("ref_mu2", jq(r.mu2)).b("ref_crossed", r.crossed);
+  DirOut o; call(mask, o);
+  J w = witness(o, mask, "");
   if (c.only) std::fprintf(stderr, "DIRECT %s\n", w.done().c_str());
-  g_route.E = &E; g_route.series = series; g_route.lat1 = lat1; g_route.lat2 = std::isfinite(o.lat2) ? o.lat2 : (double)r.lat2; g_route.moved = true;
-  g_route.nonfinite = !r.crossed && !r.from_pole && !r.at_pole && !(std::isfinite(o.lat2) && std::isfinite(o.lon2) && std::isfinite(o.S12));
   DirTol t = direct_tols(E, series, lat1, lon1, azi12, s12, r);
   // how close is the course to ending exactly on a pole?  (the library decides with |mu2| <= 90 in double)
   double mu2 = (double)r.mu2;
   Q calp, salp; ref::sincosd<Q>((Q)azi12, salp, calp);
   double mu1 = (double)(R.merid(lat1) / R.Qm * 90), mu12 = (double)((Q)s12 * calp / R.Qm * 90);
   bool borderline = std::fabs(std::fabs(mu2) - 90) <= 32 * EPS * (std::fabs(mu1) + std::fabs(mu12) + 90);
-  // ---- latitude (documented rule: the latitude continues over the pole)
-  if (!(std::fabs(o.lat2) <= 90)) { V(c, "oracle:C09/direct/lat2-range/" + md, cls, w); return o; }
-  double em = (double)ref::fabs(R.merid(o.lat2) - R.merid(r.lat2));
-  c.obs("direct latitude error (meridian distance) / tolerance [" + otag(md) + "]", em / t.tol_m, J(w).f("err_m", em).f("tol_m", t.tol_m));
-  if (!(em <= t.tol_m)) V(c, std::string("oracle:C09/direct/") + (r.crossed ? "pole-rule/lat2/" : "lat2/") + md, cls, J(w).f("err_m", em).f("tol_m", t.tol_m));
-  // ---- pole rule
-  if (borderline) { c.event("direct: course ends within round-off of a pole (either outcome accepted)"); return o; }
-  if (r.crossed) {
-    c.event("direct: pole-crossing courses checked against the documented rule");
-    if (!std::isnan(o.lon2)) V(c, "oracle:C09/direct/pole-rule/lon2-not-nan/" + md, cls, w);
-    if (!std::isnan(o.S12)) V(c, "oracle:C09/direct/pole-rule/S12-not-nan/" + md, cls, w);
-    return o;
+  judge_direct_outputs(c, cls, E, series, lat1, lon1, azi12, s12, r, t, borderline, o, DirReq{true, true, true, unroll}, "", w);
+  // ---- the same problem with a random NON-EMPTY subset of the outputs requested: every requested output is judged
+  //      against REF as above; an output that is not requested must be left alone (it still holds its sentinel)
+  {
+    unsigned bits = 1 + (unsigned)c.rng.below(7);   // 1..7
+    bool ql = bits & 1, qo = bits & 2, qa = bits & 4, qu = c.rng.coin();
+    unsigned m2 = (ql ? (unsigned)Rhumb::LATITUDE : 0u) | (qo ? (unsigned)Rhumb::LONGITUDE : 0u) | (qa ? (unsigned)Rhumb::AREA : 0u) | (qu ? (unsigned)Rhumb::LONG_UNROLL : 0u);
+    DirOut om; call(m2, om);
+    J wm = witness(om, m2, " (subset of outputs)");
+    if (c.only) std::fprintf(stderr, "DIRECT-MASKED %s\n", wm.done().c_str());
+    c.event("direct calls with a random subset of outputs judged");
+    judge_direct_outputs(c, cls, E, series, lat1, lon1, azi12, s12, r, t, borderline, om, DirReq{ql, qo, qa, qu}, "/masked", wm);
+    bool untouched = (ql || vh::is_sentinel(om.lat2, 1)) && (qo || vh::is_sentinel(om.lon2, 2)) && (qa || vh::is_sentinel(om.S12, 3));
+    if (!untouched) c.event("direct: an output that was not requested was written (C12 judges this)");
   }
-  if (r.from_pole) {
-    c.event("direct: start at a pole");
-    if (salp == 0 && s12 != 0 && !r.at_pole) {
-      // a course along a meridian leaving the pole: longitude is determinate (the meridian lon1) and the area is 0
-      c.event("direct: start at a pole, exactly meridional");
-      if (!(std::isfinite(o.lon2) && std::isfinite(o.S12)))
-        c.viol("oracle:C09/direct/from-pole/meridional-course-longitude-not-finite", cls, w);
-    }
-    return o;
+  // ---- convenience overloads (all outputs / without the area, longitude reduced to [-180,180])
+  {
+    DirOut o3, o2; o3.lat2 = vh::sentinel(1); o3.lon2 = vh::sentinel(2); o3.S12 = vh::sentinel(3); o2 = o3;
+    if (line) { line->Position(s12, o3.lat2, o3.lon2, o3.S12); line->Position(s12, o2.lat2, o2.lon2); }
+    else { rh.Direct(lat1, lon1, azi12, s12, o3.lat2, o3.lon2, o3.S12); rh.Direct(lat1, lon1, azi12, s12, o2.lat2, o2.lon2); }
+    const unsigned m3 = Rhumb::LATITUDE | Rhumb::LONGITUDE | Rhumb::AREA, m2 = Rhumb::LATITUDE | Rhumb::LONGITUDE;
+    judge_direct_outputs(c, cls, E, series, lat1, lon1, azi12, s12, r, t, borderline, o3, DirReq{true, true, true, false}, "/overload", witness(o3, m3, line ? " Position(s12,lat2,lon2,S12)" : " Direct(...,lat2,lon2,S12)"));
+    judge_direct_outputs(c, cls, E, series, lat1, lon1, azi12, s12, r, t, borderline, o2, DirReq{true, true, false, false}, "/overload", witness(o2, m2, line ? " Position(s12,lat2,lon2)" : " Direct(...,lat2,lon2)"));
   }
-  if (r.at_pole) return o;
-  // ---- position
-  if (!(std::isfinite(o.lon2) && std::isfinite(o.S12))) { V(c, "oracle:C09/direct/non-finite-output/" + md, cls, w); return o; }
-  Q dl = unroll ? ((Q)o.lon2 - (Q)lon1) - r.lon12 : ref::remainder((Q)o.lon2 - ((Q)lon1 + r.lon12), (Q)360);
-  double ee = t.R2 * (double)ref::fabs(dl) * DEG, ep = std::hypot(em, ee);
-  c.obs("direct position error / tolerance [" + otag(md) + "]", ep / t.tol_pos, J(w).f("err_m", ep).f("tol_m", t.tol_pos).f("cond", t.cond));
-  c.obs("direct position error / cond [nm, scaled to a=WGS84] " + md + " " + E.bucket, ep / t.cond * 1e9 * WGS84_A / E.a);
-  if (!(ep <= t.tol_pos)) V(c, "oracle:C09/direct/position/" + md, cls, J(w).f("err_m", ep).f("tol_m", t.tol_pos).f("cond", t.cond));
-  if (!unroll && !(std::fabs(o.lon2) <= 180)) V(c, "oracle:C09/direct/lon2-range/" + md, cls, w);
-  if (unroll && t.R2 > 0 && (double)ref::fabs(dl) > 180 && t.tol_pos / t.R2 < 1) V(c, "oracle:C09/direct/unroll-circuit-count/" + md, cls, w);
-  o.judged_pos = true;
-  // ---- area
-  if (t.area_ok) {
-    double eS = (double)ref::fabs((Q)o.S12 - r.S12);
-    if (t.tol_S > 0) c.obs("direct S12 error / tolerance [" + otag(md) + "]", eS / t.tol_S, J(w).f("err_m2", eS).f("tol_m2", t.tol_S));
-    if (!(eS <= t.tol_S)) V(c, "oracle:C09/direct/S12/" + md, cls, J(w).f("err_m2", eS).f("tol_m2", t.tol_S));
-  }
+  // restore the routing context of the all-outputs call for the law below
+  g_route.E = &E; g_route.series = series; g_route.lat1 = lat1; g_route.lat2 = std::isfinite(o.lat2) ? o.lat2 : (double)r.lat2; g_route.moved = true;
+  g_route.nonfinite = !r.crossed && !r.from_pole && !r.at_pole && !(std::isfinite(o.lat2) && std::isfinite(o.lon2) && std::isfinite(o.S12));
+  bool normal = !borderline && !r.crossed && !r.from_pole && !r.at_pole && o.judged_pos;
   // ---- inverse of direct (library only): only when the course is the shortest one
-  if ((double)ref::fabs(r.lon12) < 179.999 && s12 != 0 && std::fabs(o.lat2) < 90 && std::fabs(lat1) < 90) {
+  if (normal && (double)ref::fabs(r.lon12) < 179.999 && s12 != 0 && std::fabs(o.lat2) < 90 && std::fabs(lat1) < 90) {
     double sb, ab; rh.Inverse(lat1, lon1, o.lat2, o.lon2, sb, ab);
     g_route.nonfinite = g_route.nonfinite || !(std::isfinite(sb) && std::isfinite(ab));
     // the end point handed back is a rounded double: allow the move of the true end point by one ulp in each coordinate
